@@ -494,7 +494,7 @@ def main():
                 chk.case("ns.%s.%s.o%d" % (sch, mth, o), case_kernel, sector="ns", order=o, method=mth, scheme=sch)
         for mth in ("TRUNCATED", "PERTURBATIVE_EXACT"):
             chk.case("singlet.%s.%s.o2" % (sch, mth), case_kernel, sector="singlet", order=2, method=mth, scheme=sch)
-            if thorough:
+            if thorough and mth == "TRUNCATED":  # perturbative-exact at order 3: 75-90 min per case, beyond the tier's case limit
                 chk.case("singlet.%s.%s.o3" % (sch, mth), case_kernel, sector="singlet", order=3, method=mth, scheme=sch)
         for o in ((2, 3) if thorough else (2,)):
             chk.case("singlet.%s.DECOMPOSE_EXACT.o%d.diag" % (sch, o), case_kernel, sector="singlet", order=o, method="DECOMPOSE_EXACT", scheme=sch, kind="diag")
